@@ -8,6 +8,8 @@ CONSTANTS
   SimpN = 6
   RuleN = 10
   HistN = 0
+  CoefN = 4
+  EqN = 4
 INIT Init
 NEXT Next
 INVARIANT Export
